@@ -257,10 +257,33 @@ def _setup(case, files, fault_plan=None):
   return fs, texts
 
 
+def _recorded_imports():
+  """The import statements gin has recorded, as {spelling: 1}."""
+  recorded = getattr(world.config, '_IMPORTS', None)
+  if isinstance(recorded, (set, frozenset, list, tuple)):
+    try:
+      return {'%s|from=%s|as=%s' % (st.module, bool(st.is_from), st.alias): 1
+              for st in recorded}
+    except AttributeError:
+      pass
+  # (the internals look different: go by what config_str() prints)
+  try:
+    text = world.gin.config_str()
+  except Exception as e:  # pylint: disable=broad-except
+    return {'config_str raised %s' % type(e).__name__: 1}
+  return {l.strip(): 1 for l in text.split('\n')
+          if l.startswith(('import ', 'from '))}
+
+
 def _snapshot():
   cfg = world.config._CONFIG  # pylint: disable=protected-access
-  return {k: {p: probes.stable(v) for p, v in sorted(d.items())}
-          for k, d in sorted(cfg.items()) if d}
+  out = {k: {p: probes.stable(v) for p, v in sorted(d.items())}
+         for k, d in sorted(cfg.items()) if d}
+  # the statements that "have taken effect" include the imports
+  imports = _recorded_imports()
+  if imports:
+    out['__imports__'] = imports
+  return out
 
 
 def _parse(case, fs, texts):
@@ -361,11 +384,18 @@ def run(case):
   gin.parse_config(cfgtext.flat_text(case['followup']))
   follow_only = _snapshot()
 
-  def overlay(base):
+  def overlay(base, top=None):
     out = {k: dict(d) for k, d in base.items()}
-    for k, d in follow_only.items():
+    for k, d in (follow_only if top is None else top).items():
       out.setdefault(k, {}).update(d)
     return out
+
+  # the whole (fault-free) text alone
+  world.reset()
+  fs0, texts0 = _setup(dict(case, initial=[]), case['files'])
+  _parse(case, fs0, texts0)
+  file_only = _snapshot()
+  healthy_texts = dict(texts0)
 
   # ---- the fault-free parse equals the full prefix (sanity of the harness) --
   world.reset()
@@ -511,6 +541,7 @@ def run(case):
         '%s: config_str(show_provenance=True) raised %s: %s' %
         (where, type(e).__name__, probes.scrub(str(e))[:300]))
     # later parsing behaves as in a fresh process with the prefix applied
+    after = None
     try:
       gin.parse_config(cfgtext.flat_text(case['followup']))
       after = _snapshot()
@@ -522,6 +553,39 @@ def run(case):
       v('C16.later_parse', [kind, type(e).__name__],
         '%s: follow-up parse raised %s: %s' %
         (where, type(e).__name__, probes.scrub(str(e))[:300]))
+    # ... including the very call that failed, once the fault is mended: the
+    # same entry point on the corrected text goes through and leaves what a
+    # fresh process would have after prefix, follow-up and the whole text
+    if after is not None and got == want:
+      if kind == 'bad_import':
+        # the module that could not be imported has become available
+        import sys as _sys
+        probes.plant_module('no_such_module_qq')
+        try:
+          gin.parse_config('\n'.join(FAULT_LINES['bad_import']) + '\n')
+        except Exception as e:  # pylint: disable=broad-except
+          v('C16.later_parse', ['import-now-available', type(e).__name__],
+            '%s: the module is importable now, the import statement still '
+            'raises %s: %s' % (where, type(e).__name__,
+                               probes.scrub(str(e))[:300]))
+        finally:
+          _sys.modules.pop('no_such_module_qq', None)
+        after = _snapshot()
+      for ri in fs.table:
+        if ri == 0:
+          fs.table[ri] = dict(healthy_texts)
+      cnt['reparse_after_mend'] = cnt.get('reparse_after_mend', 0) + 1
+      try:
+        _parse(case, fs, healthy_texts)
+        final = _snapshot()
+        if final != overlay(after, file_only):
+          v('C16.later_parse', ['mended-reparse-differs', kind],
+            '%s: parsing the corrected text afterwards gives %r, a fresh '
+            'process gives %r' % (where, final, overlay(after, file_only)))
+      except Exception as e:  # pylint: disable=broad-except
+        v('C16.later_parse', ['mended-reparse-raises', type(e).__name__],
+          '%s: parsing the corrected text after the failed call raised %s: %s'
+          % (where, type(e).__name__, probes.scrub(str(e))[:300]))
 
   # ---- the same text parsed into a finalized (locked) configuration: the first
   # statement that binds something is the one that fails, located like any other
@@ -552,7 +616,9 @@ def run(case):
           'parsing into a finalized configuration raised %r, expected '
           'RuntimeError at unit %d' % (exc, k0))
       else:
-        if _snapshot() != before:
+        def _no_imports(snap):
+          return {kk: d for kk, d in snap.items() if kk != '__imports__'}
+        if _no_imports(_snapshot()) != _no_imports(before):
           v('C16.prefix_exact', ['locked', 'other'],
             'a parse rejected by the lock changed the store')
         msg = str(exc)
